@@ -14,7 +14,7 @@ THEOREMS = ["C08_do_work_total", "C08_identity_invariant", "C08_authenticated_on
             "C08_bounded_rejections", "C08_buffer_bound", "C08_transport_gate", "C08_anonymous_only_if_enabled",
             "C08_responses_partial", "C08_responses_partial_run", "C08_responses_refuted_odd_hex", "C08_skip_blank_never_aborts",
             "C08_keyring_line_sound", "C08_keyring_line_complete", "C08_keyring_line_refuted", "C08_keyring_context",
-            "C08_cookie_only_from_keyring", "C08_announced_key_recent", "C08_no_origin_no_cookie", "C08_chunking_independent"]
+            "C08_cookie_only_from_keyring", "C08_announced_key_recent", "C08_no_origin_no_cookie", "C08_chunking_independent", "C08_handshake_boundary"]
 
 PUID = os.getuid()
 DEFAULT_CTX = b"org_freedesktop_general"
@@ -1175,6 +1175,114 @@ def keyring_oracle(c, r):
     return None
 
 
+# ---------------------------------------------------------------------------
+# leg 2b: the handshake-to-message boundary (C08_handshake_boundary): every cut set is run through the extracted
+# transport model (Auth.Transport.trun on Auth.Handover.drive) and against the daemon
+# ---------------------------------------------------------------------------
+def boundary_cuts(rnd, tier, hs_len, begin_at, total):
+    cuts = [[]]
+    for i in range(max(1, begin_at - 2), min(total, hs_len + 3)):
+        cuts.append([i])                                   # a single cut: before / inside / right after BEGIN CRLF, inside the first message
+    for i in (hs_len + 8, hs_len + 16, hs_len + 17, 2047, 2048, 2049, 4096, total - 1):
+        if 0 < i < total:
+            cuts.append([i])
+    for i in range(begin_at, hs_len + 1):
+        cuts.append([i, hs_len])                           # inside BEGIN and exactly at the boundary
+        cuts.append([i, hs_len + 5])
+    cuts.append(list(range(1, min(total, hs_len + 40))))   # byte by byte through the handshake and into the first message
+    for _ in range(10 if tier == "quick" else 300):
+        k = rnd.choice((2, 3, 5))
+        cuts.append(sorted(set(rnd.randrange(1, total) for _ in range(k))))
+    return cuts
+
+
+def run_boundary(ctx, stats):
+    import socket
+    sys.path.insert(0, os.path.join(vlib.VERIF, "harness", "py"))
+    import rawbus
+    rep, tier, info = ctx["rep"], ctx["tier"], ctx["info"]
+    rnd = random.Random(ctx["seed"] + 11)
+    mk = lambda serial, member: rawbus.Msg(rawbus.METHOD_CALL, 0, serial, {rawbus.F_PATH: "/org/freedesktop/DBus", rawbus.F_MEMBER: member,
+                                           rawbus.F_INTERFACE: "org.freedesktop.DBus", rawbus.F_DESTINATION: "org.freedesktop.DBus"}).encode()
+    ncalls = 41          # > 2048 and > 4096 bytes: the messages cannot all arrive in the read that completes the handshake
+    msgs = mk(1, "Hello") + b"".join(mk(i, "GetId") for i in range(2, ncalls + 1))
+    first = b"AUTH EXTERNAL " + h(str(PUID)) + b"\r\n"
+    hs = first + b"BEGIN\r\n"
+    stream = hs + msgs
+    cutsets = boundary_cuts(rnd, tier, len(hs), len(first), len(stream))
+    env = dict(uid=PUID, pid=os.getpid(), gids=None, mechs="*", fdp=1, ctx=None, keys=[], kdir="ok", steps=[], tag="boundary")
+    base = model_line(env, {"fed": [], "steps": [], "end": {"keyfile": "-"}}, build_asserts(info))[0].replace("authm ", "xferm ", 1)
+    mlines = ["%s stream=%s cuts=%s anon=0 uidfn=%d" % (base, stream.hex(), ".".join(str(c) for c in cs) or "-", PUID) for cs in cutsets]
+    model, mcr = vlib.run_lines(info["model_auth"], mlines, shards=1)
+    for cs, ml, m in zip(cutsets, mlines, model):
+        f = dict(t.split("=", 1) for t in m.split() if "=" in t)
+        if f.get("auth") != "1" or f.get("rec") != "1" or unhx(f.get("loader", "-")) != msgs or f.get("id", "").split("/")[0] != str(PUID):
+            rep.violation("handshake boundary, cuts %s: the transport model gives %s (expected authenticated, hand-over done, loader input = the %d message bytes)"
+                          % (cs[:8], m[:200], len(msgs)), {"model_input": ml, "names": "Auth.Transport.trun vs C08_handshake_boundary"}, found_input=False)
+    d = rawbus.Daemon(info["daemon"])
+    n_ok = 0
+    try:
+        for cs in cutsets:
+            sk = socket.socket(socket.AF_UNIX, socket.SOCK_STREAM)
+            sk.connect(d.sock)
+            sk.settimeout(5.0)
+            sk.sendall(b"\0")
+            # the AUTH line first (cut as asked), then wait for OK like a real client: authentication then completes in the
+            # read that brings BEGIN, with message bytes behind it and more already queued in the socket
+            prev = 0
+            for c in [x for x in cs if x < len(first)] + [len(first)]:
+                sk.sendall(stream[prev:c])
+                prev = c
+            buf = bytearray()
+            replies = []
+            ok_line = False
+            try:
+                while b"\r\n" not in buf:
+                    dd = sk.recv(65536)
+                    if not dd:
+                        break
+                    buf += dd
+            except (socket.timeout, OSError):
+                pass
+            for c in [x for x in cs if x > len(first)] + [len(stream)]:
+                try:
+                    sk.sendall(stream[prev:c])
+                except OSError:
+                    break
+                prev = c
+            try:
+                while len(replies) < ncalls:
+                    dd = sk.recv(65536)
+                    if not dd:
+                        break
+                    buf += dd
+                    if not ok_line and b"\r\n" in buf:
+                        i = buf.index(b"\r\n")
+                        ok_line = bytes(buf[:i]).startswith(b"OK ")
+                        del buf[:i + 2]
+                    while ok_line:
+                        mm, nn = rawbus.parse_message(buf)
+                        if mm is None:
+                            break
+                        del buf[:nn]
+                        if mm.mtype in (rawbus.METHOD_RETURN, rawbus.ERROR):
+                            replies.append((mm.mtype, mm.fields.get(rawbus.F_REPLY_SERIAL)))
+            except (socket.timeout, OSError):
+                pass
+            sk.close()
+            if replies != [(rawbus.METHOD_RETURN, i) for i in range(1, ncalls + 1)]:
+                rep.violation("handshake boundary: handshake + %d calls written with cuts %s: OK line %s, %d replies %s... (expected one method return per call, in order)" % (ncalls, cs[:8], ok_line, len(replies), replies[:4]),
+                              {"leg": "boundary", "cuts": cs, "stream_hex": stream.hex()})
+            else:
+                n_ok += 1
+    finally:
+        rc, err = d.stop()
+        if rc not in (0, -15) or "ERROR: AddressSanitizer" in err or "runtime error" in err:
+            rep.violation("daemon exited with %s / sanitizer output during the boundary leg: %s" % (rc, err[-800:]), {"leg": "boundary", "stderr": err[-3000:]})
+    stats["boundary_cutsets"] = len(cutsets)
+    stats["boundary_ok"] = n_ok
+
+
 def gen_aux(rnd, tier):
     """SHA-1, hex decoding and uid parsing: library vs model vs an independent implementation"""
     lines, expect = [], []
@@ -1241,10 +1349,12 @@ def run(ctx):
     run_keyring(ctx, stats)
     t2 = time.time()
     run_leg2(ctx, known, stats)
+    run_boundary(ctx, stats)
     t3 = time.time()
     sample_idx = list(range(0, len(cases), max(1, len(cases) // 10)))[:10]
     rep.coverage.update({
-        "evaluations": nrun + stats.get("aux", 0) + stats.get("keyring", 0) + stats.get("daemon_scripts", 0),
+        "evaluations": nrun + stats.get("aux", 0) + stats.get("keyring", 0) + stats.get("daemon_scripts", 0) + stats.get("boundary_cutsets", 0),
+        "boundary_cutsets": stats.get("boundary_cutsets", 0), "boundary_cutsets_answered": stats.get("boundary_ok", 0),
         "keyring_cases": stats.get("keyring", 0), "keyring_cases_serving_a_key": stats.get("keyring_nontrivial", 0),
         "distinct_nontrivial": len(nontrivial),
         "rule": "in-process: corpus, identity strings (%d uid spellings x socket uids, both as initial response and as DATA), cookie exchanges "
